@@ -7,6 +7,7 @@ import (
 	"math/big"
 	"strconv"
 	"strings"
+	"sync"
 	"testing"
 
 	"github.com/0chain/common/core/currency"
@@ -663,4 +664,80 @@ func FuzzCurrency(f *testing.F) {
 		checkParse(t, fl)
 		checkToZCN(t, a)
 	})
+}
+
+// collector is a failer for goroutines: the first message is kept and the calling goroutine stops.
+type collector struct {
+	mu  sync.Mutex
+	msg string
+}
+
+type stopNow struct{}
+
+func (c *collector) Fatalf(f string, a ...any) {
+	c.mu.Lock()
+	if c.msg == "" {
+		c.msg = fmt.Sprintf(f, a...)
+	}
+	c.mu.Unlock()
+	panic(stopNow{})
+}
+
+// The helpers are plain functions of their arguments: several callers at once get the same exact results as one.
+func TestSeveralCallersAtOnce(t *testing.T) {
+	seed := ev.SeedFor("TestSeveralCallersAtOnce")
+	col := &collector{}
+	var wg sync.WaitGroup
+	const callers = 8
+	per := 6000
+	if ev.Thorough() {
+		per = 60000
+	}
+	for g := 0; g < callers; g++ {
+		wg.Add(1)
+		go func(g int) {
+			defer wg.Done()
+			defer func() {
+				if r := recover(); r != nil {
+					if _, ok := r.(stopNow); !ok {
+						col.mu.Lock()
+						if col.msg == "" {
+							col.msg = fmt.Sprintf("panic in a helper called from goroutine %d: %v", g, r)
+						}
+						col.mu.Unlock()
+					}
+				}
+			}()
+			x := seed*0x9e3779b97f4a7c15 + uint64(g)*0xbf58476d1ce4e5b9 + 1
+			next := func() uint64 {
+				x ^= x << 13
+				x ^= x >> 7
+				x ^= x << 17
+				return x
+			}
+			for i := 0; i < per; i++ {
+				a, b := intPool[next()%uint64(len(intPool))], intPool[next()%uint64(len(intPool))]
+				if i%3 == 0 {
+					a = next() >> (next() % 64)
+				}
+				f := fltPool[next()%uint64(len(fltPool))]
+				checkMult(col, a, b)
+				checkAdd(col, a, b)
+				checkMinus(col, a, b)
+				checkAddInt64(col, a, int64(b))
+				checkDistribute(col, a, int64(b))
+				checkFloatToCoin(col, f)
+				checkMultFloat(col, a, f)
+				checkParse(col, f)
+				checkToZCN(col, a)
+				checkToZCN(col, b)
+			}
+		}(g)
+	}
+	wg.Wait()
+	if col.msg != "" {
+		t.Fatalf("with %d callers at once: %s", callers, col.msg)
+	}
+	ev.Case(fmt.Sprintf("concurrent/%d", seed), true, "several-callers-at-once")
+	ev.Extra("concurrent_callers", callers)
 }
